@@ -154,6 +154,12 @@ pub fn build(
                 "value {value} for case `{name}` of enum `{resolvee_path}` does not fit in the enum's base type"
             );
         }
+        // Two cases with the same name or the same value do not compile.
+        if let Some((other, _)) = fields.iter().find(|(n, v)| *n == name.0 || *v == value) {
+            anyhow::bail!(
+                "case `{name}` of enum `{resolvee_path}` has the same name or value as case `{other}`"
+            );
+        }
         fields.push((name.0.clone(), value));
 
         for attribute in attributes {
